@@ -321,6 +321,7 @@ func writeEvidence(eng *Engine, verif, prop, tier string, seed int64, results []
 		"queries":                       map[string]int64{"sent": q, "sat": gstats.sat, "unsat": gstats.unsat, "unknown": gstats.unknown, "cache_hits": gstats.cacheHits, "decided_by_model": gstats.modelHits, "decided_syntactically": gstats.synHits},
 		"solver_time_s":                 float64(atomic.LoadInt64(&gstats.nanos)) / 1e9,
 		"solver":                        "z3 4.8.12 (-in, one process per worker)",
+		"cross_solver_validation":       map[string]interface{}{"solvers": "thorough tier: z3 5.1.0 (z3-new) and cvc5 1.0 re-decide every unsat answer (the ones that prune a path or discharge an assertion); all tiers: every sat model is re-evaluated against the query by the engine", "sat_models_validated": xstats.modelsValidated, "sat_models_rejected": xstats.modelBad, "unsat_requeries": xstats.checked, "agreed": xstats.agreed, "disagreed": xstats.disagreed, "unknown_on_other_solver": xstats.unknown},
 		"load_and_init_s":               loadS,
 		"known_findings_seen":           knownIDs,
 		"unconfirmed_outside_claim":     unconfirmed,
